@@ -264,6 +264,8 @@ def _assign_ids(prj, rng, t, used_ids, predefined=False, edge=False):
     others = sorted(x.handle for x in prj.types.values() if x.handle is not None and x is not t)
     if others and rng.random() < 0.06:
         h = rng.choice(others)
+    elif rng.random() < 0.04:
+        h = rng.choice([0, 0, 0xFFFF])   # any 16-bit value is a structure handle, 0 included
     t.template_id, t.handle = tid, h
     prj.types[t.name] = t
     prj.by_template[tid] = t
@@ -443,6 +445,15 @@ def generate_project(rng, size="small", fw=None, micro800=False):
                 rt_.attr6 = rng.getrandbits(32)
                 routines.append(rt_)
             allsyms = ptags + routines
+            if rng.random() < 0.6:
+                # every program has its own symbol class: instance ids are unique within a scope, not across scopes - half of this
+                # program's symbols get an id that a controller-scoped symbol also has
+                ctrl_ids, taken = [x.instance_id for x in syms], set()
+                for s_ in allsyms:
+                    cand = rng.choice(ctrl_ids) if ctrl_ids and rng.random() < 0.5 else None
+                    if cand is not None and cand not in taken:
+                        s_.instance_id = cand
+                    taken.add(s_.instance_id)
             rng.shuffle(allsyms)
             prj.programs[pn] = {"instance_id": pinst, "routines": [r.name[len("Routine:"):] for r in sorted(routines, key=lambda x: x.instance_id)],
                                 "symbols": sorted(allsyms, key=lambda x: x.instance_id)}
